@@ -10,7 +10,8 @@
    data, AddressSanitizer), which is a test.  Modelled, not verified: libblas computes what Matmul.f_gemm_cell /
    f_gemv_cell say. *)
 From Coq Require Import ZArith List Ring_theory.
-From Adept Require Import Scalar Matmul MatmulProofs.
+From Adept Require Import Scalar Matmul MatmulProofs Band BandProofs.
+From AdeptGen Require Import Gen_Band Gen_Engines.
 Import ListNotations.
 Local Open Scope Z_scope.
 
@@ -37,7 +38,16 @@ Theorem C15_derivative_statement_partial : forall mem (l r : mview) lact ract li
   oadd O (if lact then zsum O (md0 r) (fun q => omul O (melem mem r q j) (g (lidx + i * ms0 l + q * ms1 l))) else o0 O)
          (if ract then zsum O (md0 r) (fun q => omul O (melem mem l i q) (g (ridx + q * ms0 r + j * ms1 r))) else o0 O).
 Proof. exact (statement_is_differential O Rth). Qed.
+(* band matrix x vector through ?gbmv: with the start pointer, leading dimension, (KL,KU) and wrapper arguments GENERATED from
+   matmul.h / cppblas.cpp on every run (Gen_Band.v) and the engine layout generated from SpecialMatrix.h (Gen_Engines.v), row
+   i of the result is the defining sum over the stored band, for both storage orders, every dimension and every L, U >= 0 *)
+Theorem C15_band_matrix_vector_partial : forall (row_major : bool) (L U dim : Z) (mem : Z -> T) (left_ptr x0 incx i : Z),
+  0 <= L -> 0 <= U -> 0 <= i < dim ->
+  adept_band_mv O row_major L U dim mem left_ptr (pack_offset (if row_major then BandR else BandC) L U dim) x0 incx i
+  = band_mv_spec O row_major L U dim mem left_ptr (pack_offset (if row_major then BandR else BandC) L U dim) x0 incx i.
+Proof. exact (band_mv_correct O). Qed.
 End AnyRing.
+Print Assumptions C15_band_matrix_vector_partial.
 Print Assumptions C15_dense_matrix_matrix_partial.
 Print Assumptions C15_result_placement.
 Print Assumptions C15_dense_matrix_vector_partial.
